@@ -52,9 +52,17 @@ def lifecycle_set_follows(ck, C):
     else:
         A2 = set_calls(drr, "register")
         R2 = T.calls(drr, name="reregister", trait="EventSource", self_kind=("param", "alias"))
+        from props import C07 as _C07
+
+        guarded = _C07.reregister_runs_only_when_registered(ck)
         for r in R2:
             ok_e, err_e, direct = T.result_split(drr, r.bb)
             for a in A2:
+                if guarded:
+                    # reregister only ever runs for a registered source, which register() has listed already: the
+                    # announcement is idempotent (C14.1, listed once) wherever it stands
+                    ck.ok(C, "T3-must-precede", drr, "set-add-only-after-successful-reregister", "the source's reregister runs only while the source is registered (C07.4), and a registered source is already listed: announcing it again changes nothing, before or after the fallible call", site=drr.where(a.bb))
+                    continue
                 ck.verdict(bool(ok_e) and not direct and T.reachable_only_via(drr, a.bb, ok_e), C, "T3-must-precede", drr, "set-add-only-after-successful-reregister", "the token is announced to the lifecycle set only on the success edge of the source's reregister", "reregister announces the source to the lifecycle set before its own re-registration has succeeded: a failed update() of a disabled source puts it back into the set, so it receives before_sleep/before_handle_events while disabled", site=drr.where(a.bb))
     # the set is keyed by *registration* tokens (sub-id cleared): every token under which an entry is
     # removed in the batch loop must have its sub-id forgotten, or removal (full equality) misses it
@@ -97,6 +105,12 @@ def lifecycle_set_follows(ck, C):
             flag_false = []
             for sw in T.switches_on_expr(dunreg, lambda e: (e[0] == "place" and "needs_additional_lifecycle_events" in e[1]) or (e[0] == "const" and "NEEDS_EXTRA_LIFECYCLE_EVENTS" in str(e[1]))):
                 flag_false += T.edges_of_value(dunreg, sw, False)
+            from props import C07 as _C07u
+
+            if _C07u.reregister_runs_only_when_registered(ck):
+                # with an exact 'registered' flag (C07.4) a source that is not registered is not listed: leaving on the
+                # 'not registered' edge of that flag drops nothing that is there
+                flag_false += _C07u.state_flag_edges(ck, dunreg, False)
             bad = T.t2_all_exits(dunreg, starts, U, removed_edges=flag_false)
             ck.verdict(bad is None, C, "T2-all-exits", dunreg, "unregister-always-drops-entry", "every path on which the dispatcher could be borrowed removes the token from the set (unless the source never opted in), including the path on which the source's own unregister fails", "a path returns from unregister with the token still in the lifecycle set (the source's unregister failed before the set was updated): the callers empty the slot regardless and the next dispatch hits unreachable!()", site=dunreg.where(t.bb), path=path_descr(dunreg, bad) if bad else None)
     sunreg = ck.body(C, "AdditionalLifecycleEventsSet::unregister")
@@ -163,6 +177,27 @@ def run(ck):
             if not ok and rem and T.t3_dominated_by_any(reg, cs.bb, rem):
                 ok, why = True, "the add is preceded on every path by removal of the same token"
             ck.verdict(ok, "1", "T4-guarded-by", reg, "add-is-deduplicated", why, "the token is appended unconditionally: every (re)registration of a source adds another entry, so its hooks run more than once per dispatch", site=reg.where(cs.bb))
+
+    # .. and a token that is not listed yet always gets listed: the only way past the add is the 'already contained'
+    # edge of a membership test of the whole token on the list itself (a side index keyed by something coarser - the
+    # slot - answers "known" for the successor of a source whose removal is still deferred, which is then never listed)
+    if not is_set and adds:
+        known_edges = []
+        for g in T.calls(reg, name=("contains",)):
+            if not T.path_has(reg, g.args[0], ".values") or len(g.args) < 2:
+                continue
+            if not any(r_ == ("arg", 2) and all(e in ("&", "*") for e in p_) for r_, p_ in reg.resolve(g.args[1])):
+                continue
+            tr, fa = T.bool_split(reg, g.bb)
+            known_edges += list(tr)
+        for g in T.calls(reg, name=("any", "position", "find", "binary_search")):
+            # a search of the list itself (the comparison it makes is the subject of C20 / the dedupe rule above)
+            if T.path_has(reg, g.args[0], ".values") or any(T.path_has(reg, c_.args[0], ".values") for c_ in T.calls(reg, name=("iter",)) if T.resolves_to_call(reg, g.args[0], [c_.bb])):
+                tr, fa = T.bool_split(reg, g.bb)
+                some, none = T.option_split(reg, g.bb)
+                known_edges += list(tr) + list(some)
+        bad = T.t2_all_exits(reg, [0], [cs.bb for cs in adds], removed_edges=known_edges)
+        ck.verdict(bad is None, "1", "T2-all-exits", reg, "unlisted-token=>added", "every path through register appends the token, except the 'already listed' edge of `values.contains(&token)`", "AdditionalLifecycleEventsSet::register can return without listing a token that is not in the list (an early return decided by something else than the list itself): the source never receives before_sleep / before_handle_events", site=reg.where(), path=path_descr(reg, bad) if bad else None)
 
     lifecycle_set_follows(ck, "2")
     from props import common as _common, C06
